@@ -144,6 +144,49 @@ func (s *prefixState) exec(c *ctx, op string) string {
 		aged += d
 		c.emit(op, "ok")
 		return "ok"
+	case "prace": // prace <k> <rounds>: again and again, k copies of a new client's first SOLICIT at once
+		if s.h == nil {
+			return ""
+		}
+		k, rounds := atoi(f[1]), atoi(f[2])
+		res := "ok"
+		for r := 0; r < rounds && res == "ok"; r++ {
+			msg := strings.Fields(fmt.Sprintf("fc%06x 0 1 iapd 00000001 0", r))
+			got := make([]string, k)
+			fs := make([]func() string, k)
+			for i := range fs {
+				i := i
+				fs[i] = func() string { got[i] = s.rawMsg(msg); return "done" }
+			}
+			for _, st := range together(fs) {
+				if st == "HANG" {
+					res = "HANG"
+				}
+			}
+			// what each copy was told: the prefixes of its one IA_PD (lifetimes differ by nanoseconds: dropped)
+			told := func(x string) string {
+				w := strings.Fields(x)
+				var ps []string
+				for i := 0; i+2 < len(w); i++ {
+					if len(w[i]) == 32 && w[i+2] == "128" {
+						ps = append(ps, w[i]+"/"+w[i+1])
+					}
+				}
+				return strings.Join(ps, ",")
+			}
+			for i := 1; i < k && res == "ok"; i++ {
+				if told(got[i]) != told(got[0]) || told(got[0]) == "" {
+					res = fmt.Sprintf("differ round %d: one copy was told [%s], another [%s]", r, told(got[0]), told(got[i]))
+				}
+			}
+			if res == "ok" {
+				if again := told(s.rawMsg(msg)); again != told(got[0]) {
+					res = fmt.Sprintf("differ round %d: the copies were told [%s], the repeat afterwards [%s]", r, told(got[0]), again)
+				}
+			}
+		}
+		c.emit(op, res)
+		return res
 	case "pmsg":
 		if s.h == nil {
 			return ""
